@@ -430,6 +430,13 @@ class CEval(Evaluator):
             return len(self.iterate(args[0], "len()"))
         if name == "range" and not kw and all(isinstance(a, int) for a in args):
             return list(range(*args))
+        if name in ("sorted", "reversed") and len(args) == 1 and (not kw or (name == "sorted" and set(kw) <= {"reverse"} and isinstance(kw.get("reverse", False), bool))):
+            items = list(self.iterate(args[0], name + "()"))
+            if name == "reversed":
+                return items[::-1]
+            if not all(isinstance(x, (str, int, float)) and not isinstance(x, bool) for x in items) or len({type(x) is str for x in items}) > 1:
+                raise Unknown("sorted() of values that are not plain numbers / strings")
+            return sorted(items, reverse=kw.get("reverse", False))
         return NotImplemented
 
     def method(self, recv, attr, args, kw, n):
@@ -673,7 +680,7 @@ def run(repo, chk):
     # value scaled by distinct primes (so a permuted, dropped or unconverted element is visible), for every parameter x {US, metric}
     # unit x flag.  The scalar factor of the same configuration (R-C17-1) says what every element must have become.
     PRIMES = (2.0, 3.0, 5.0)
-    KEYS = ("n1", "n2", "n3")
+    KEYS = ("n2", "n3", "n1")        # insertion order differs from sorted order: a result assembled from re-ordered keys is visible
     IDX, COLS = ("row-labels",), ("column-labels",)
 
     def make_input(kind):
